@@ -241,8 +241,10 @@ CYCLES = [
      ["self.convert_rdf_object(&map[RDF_FIRST][0])", "self.populate_list(&mut list_items, *inode)"]),
     # blank-node property lists, collections and annotations nest
     ("pretty::write_term~write_properties", "turtle/src/serializer/_pretty.rs",
-     {"write_term", "write_bnode", "write_properties", "write_objects", "write_object"},
+     {"write_term", "write_node", "write_bnode", "write_properties", "write_objects", "write_object"},
      ["self.write_bnode(term)", "self.write_term(item)", "self.write_properties(s)",
+      # `write_node` (the `()` spelling of rdf:nil in node positions) forwards to write_term
+      "self.write_node(item)", "self.write_node(object)", "self.write_term(term)",
       "self.write_objects(subject, predicate.unwrap(), &types)",
       "self.write_object(subject, predicate.unwrap(), t.o())", "self.write_object(subject, predicate, objects[0])",
       "self.write_object(subject, predicate, obj)", "self.write_term(object)", "self.write_term(p)"]),
